@@ -45,7 +45,7 @@ def listing(root: Path) -> set:
 def cli_cell(item):
     cell, text = item
     root = Path(tempfile.mkdtemp(prefix='vc20_', dir='/dev/shm' if os.path.isdir('/dev/shm') else None))
-    for d in ('d1', 'd2', 'abs', 'inp', 'd1/rel', 'd2/rel'):
+    for d in ('d1', 'd2', 'abs', 'abs.d', 'inp', 'd1/rel', 'd2/rel', 'd1/rel.v2', 'd2/rel.v2'):
         (root / d).mkdir(parents=True, exist_ok=True)
     inp = root / 'inp' / 'case.txt'
     inp.write_text(text)
@@ -55,14 +55,18 @@ def cli_cell(item):
         args.append('rel/case.out')
     elif cell['arg'] == 'absolute':
         args.append(str(root / 'abs' / 'case.out'))
+    elif cell['arg'] == 'relative_plain':
+        args.append('rel.v2/case')
+    elif cell['arg'] == 'absolute_plain':
+        args.append(str(root / 'abs.d' / 'case'))
     env = subprocess_env()
     env.pop('GEOPHIRES_X_VERIF', None)
     env['TMPDIR'] = str(root / 'inp')
     p = subprocess.run(args, cwd=str(root / cell['dir']), env=env, capture_output=True, text=True, timeout=2400)
     created = sorted(listing(root) - before)
     # rich / HTML side outputs are not part of the property: keep report and JSON candidates only
-    created = [list(c) for c in created if c[-1].endswith(('.out', '.json'))]
-    out_file = next((root.joinpath(*c) for c in created if c[-1].endswith('.out')), None)
+    created = [list(c) for c in created if c[-1].endswith(('.out', '.json')) or '.' not in c[-1]]
+    out_file = next((root.joinpath(*c) for c in created if not c[-1].endswith('.json')), None)
     js_file = next((root.joinpath(*c) for c in created if c[-1].endswith('.json')), None)
     rec = dict(cell, signal='ok' if p.returncode == 0 else 'exit-nonzero', created=created,
                digest=digest_report(out_file.read_text()) if out_file else 'none', json=json_digest(js_file.read_text()) if js_file else 'none',
